@@ -30,6 +30,9 @@ func (s Step) String() string {
 	case "joinrejected":
 		return fmt.Sprintf("rejected-join(r%d<-copy-of-r%d+%d valid+1 %s entry)", s.R, s.S, s.PC, s.Payload)
 	case "fork":
+		if s.PC == 1 {
+			return fmt.Sprintf("fork(r%d:=NewLog(entries,heads,CLOCK of r%d))", s.R, s.S)
+		}
 		return fmt.Sprintf("fork(r%d:=NewLog(entries,heads of r%d))", s.R, s.S)
 	case "burst":
 		return fmt.Sprintf("concurrent-burst(r%d: %d appends || merges of every other replica || reader)", s.R, s.PC)
@@ -146,7 +149,7 @@ func Gen(seed int64, idx int, o GenOpts) *History {
 				h.Steps = append(h.Steps, Step{Op: "joinrejected", R: s.R, S: src, PC: rng.Intn(3), Payload: []string{"denied", "mis-signed"}[rng.Intn(2)]})
 			case 3:
 				if h.Replicas > 2 {
-					h.Steps = append(h.Steps, Step{Op: "fork", R: (s.R + 1 + rng.Intn(h.Replicas-1)) % h.Replicas, S: s.R})
+					h.Steps = append(h.Steps, Step{Op: "fork", R: (s.R + 1 + rng.Intn(h.Replicas-1)) % h.Replicas, S: s.R, PC: rng.Intn(2)})
 				}
 			case 4:
 				h.Steps = append(h.Steps, Step{Op: "joinempty", R: s.R})
@@ -154,7 +157,7 @@ func Gen(seed int64, idx int, o GenOpts) *History {
 		}
 		if o.Extra && len(h.Steps) < n && s.Op == "join" && rng.Intn(4) == 0 {
 			// extra steps that must not disturb the clock: change writer / rebuild from storage
-			if rng.Intn(2) == 0 {
+			if rng.Intn(2) == 0 || h.Codec == "pb" { // the legacy codec cannot read back what it writes: no rebuilds there
 				h.Steps = append(h.Steps, Step{Op: "setident", R: s.R, S: rng.Intn(h.Writers)})
 			} else {
 				h.Steps = append(h.Steps, Step{Op: "reload", R: s.R, Payload: []string{"manifest", "json", "entries", "hash"}[rng.Intn(4)]})
@@ -384,6 +387,8 @@ type StepResult struct {
 	// burst: entries returned by the concurrent appends and every hash a concurrent reader saw in Values()
 	Burst     []iface.IPFSLogEntry
 	BurstSeen map[string]bool
+	// snapshots taken by the concurrent reader: heads and values of each ToSnapshot() call
+	BurstSnaps [][2][]string
 }
 
 // burst: on replica R, one goroutine appends n entries, another merges every other replica (none of which
@@ -431,6 +436,12 @@ func (x *Exec) burst(s Step) StepResult {
 					rmu.Unlock()
 				}
 			}
+			sn := l.ToSnapshot()
+			rmu.Lock()
+			if len(res.BurstSnaps) < 200 {
+				res.BurstSnaps = append(res.BurstSnaps, [2][]string{Cids(sn.Heads), Hashes(sn.Values)})
+			}
+			rmu.Unlock()
 			runtime.Gosched()
 		}
 	}()
@@ -510,6 +521,9 @@ func (x *Exec) Do(i int) StepResult {
 		lo := x.W.LogOpts(x.W.LogID)
 		lo.Entries = src.GetEntries()
 		lo.Heads = src.Heads().Slice()
+		if s.PC == 1 {
+			lo.Clock = src.Clock // continue with the source's clock object (minted by the source's writer)
+		}
 		nl, err := ipfslog.NewLog(x.W.Store.API(), x.W.Idents[x.Writer[s.R]], lo)
 		if err != nil {
 			return StepResult{Err: err}
